@@ -9,6 +9,7 @@ import (
 	"fmt"
 	"time"
 
+	chandlers "github.com/mimecast/dtail/internal/clients/handlers"
 	"github.com/mimecast/dtail/internal/io/line"
 	"github.com/mimecast/dtail/internal/mapr"
 	maprclient "github.com/mimecast/dtail/internal/mapr/client"
@@ -44,7 +45,14 @@ func runServer(query string, chunks [][]string) ([]string, error) {
 			ch <- line.New(bytes.NewBuffer(append(unhx(l), '\n')), n, 100, "id")
 		}
 		if ci < len(chunks)-1 {
-			agg.Serialize(ctx) // a periodic partial result (placement relative to in-flight lines is the scheduler's)
+			// a periodic partial result; wait until the aggregator has taken the lines of this chunk, so that the cut
+			// really falls between the chunks (otherwise the interim result is empty and no message is sent)
+			deadline := time.Now().Add(2 * time.Second)
+			for len(ch) > 0 && time.Now().Before(deadline) {
+				time.Sleep(200 * time.Microsecond)
+			}
+			time.Sleep(3 * time.Millisecond)
+			agg.Serialize(ctx)
 		}
 	}
 	close(ch)
@@ -82,16 +90,18 @@ func init() {
 			perServer[i] = m
 		}
 		global := mapr.NewGlobalGroupSet()
-		clients := make([]*maprclient.Aggregate, len(c.Servers))
+		// the client side as a connection sees it: one mapreduce client handler per server, fed with the
+		// framed AGGREGATE records
+		clients := make([]*chandlers.MaprHandler, len(c.Servers))
 		for i := range clients {
-			clients[i] = maprclient.NewAggregate(fmt.Sprintf("s%d", i), query, global)
+			clients[i] = chandlers.NewMaprHandler(fmt.Sprintf("s%d", i), query, global)
 		}
 		next := make([]int, len(c.Servers))
 		deliver := func(s int) bool {
 			if next[s] >= len(perServer[s]) {
 				return false
 			}
-			clients[s].Aggregate(perServer[s][next[s]])
+			clients[s].Write(append([]byte(fmt.Sprintf("AGGREGATE|s%d|%s", s, perServer[s][next[s]])), 0xac))
 			next[s]++
 			return true
 		}
@@ -113,5 +123,44 @@ func init() {
 			nmsgs += len(m)
 		}
 		return map[string]interface{}{"rows": rows, "messages": nmsgs}, nil
+	}
+}
+
+// maprwire: the number formatting on the wire.  Partial results with given numbers are serialised by the
+// real AggregateSet.Serialize and merged by real client-side Aggregates; the final row is returned.
+func init() {
+	commands["maprwire"] = func(raw json.RawMessage) (interface{}, error) {
+		var c struct {
+			Parts []struct {
+				Samples int                `json:"samples"`
+				F       map[string]float64 `json:"f"`
+			} `json:"parts"`
+		}
+		if err := json.Unmarshal(raw, &c); err != nil {
+			return nil, err
+		}
+		query, err := mapr.NewQuery("select count(x),sum(x),min(x),max(x) from . group by g logformat generickv")
+		if err != nil {
+			return nil, err
+		}
+		global := mapr.NewGlobalGroupSet()
+		msgs := []string{}
+		for i, p := range c.Parts {
+			set := mapr.NewAggregateSet()
+			set.Samples = p.Samples
+			for k, v := range p.F {
+				set.FValues[k] = v
+			}
+			ch := make(chan string, 1)
+			set.Serialize(context.Background(), "g1", ch)
+			m := <-ch
+			msgs = append(msgs, m)
+			maprclient.NewAggregate(fmt.Sprintf("s%d", i), query, global).Aggregate(m)
+		}
+		rows, err := global.VerifRows(query)
+		if err != nil {
+			return nil, err
+		}
+		return map[string]interface{}{"rows": rows, "messages": msgs}, nil
 	}
 }
